@@ -25,6 +25,7 @@ Oracle: the property statement evaluated on the real code + fake only (no model)
      connections / transactions the code chooses, so the verdict does not depend on how the code scopes its transactions.
 """
 import ast
+import concurrent.futures
 import itertools
 import json
 import logging
@@ -50,22 +51,48 @@ META = dict(
                'InternalError 1205 (classification regenerated from database.py and proved equal to this literal table); the exception '
                'that ends an attempt whose body failed is the body\'s exception, even when the rollback fails too; after every failed '
                'attempt the committed log equals the initial one, after success it is initial ++ all statements exactly once; the pool '
-               'never holds a connection with an open transaction. The real code is run against the model on enumerated and random '
-               'fault histories.',
+               'never holds a connection with an open transaction. The same is proved for the Database.* helpers (just_execute, '
+               'execute_update, execute_insertone, execute_and_fetchone, select_and_fetchone, check_call_procedure and execute_many over '
+               'an argument array of ANY length), modelled as the retry wrapper around ONE transaction that runs the statement plan '
+               'regenerated from the helper\'s source (proved equal to: the single statement, resp. the WHOLE array, one statement per '
+               'row): C27_helper_retry_iff_transient_no_partial_writes / C27_helper_all_or_nothing / C27_helper_rows_exactly_once (every '
+               'row value occurs in the final table once more than before per occurrence in the array after success, as often as before '
+               'after failure); C27_execute_many_fault_anywhere (for every array length n, the first attempt struck at acquire, START '
+               'TRANSACTION, ANY row index < n with any effect, or COMMIT, and any continuation: nothing is committed by that attempt; a '
+               'non-transient error ends the call at once with log = initial; a transient one continues exactly like a fresh call of the '
+               'whole array on the unchanged log) and C27_execute_many_retried_exactly_once; C27_execute_many_bulk_statements (however '
+               'aiomysql cuts the array into multi-row wire statements, the table gains all rows once or nothing); '
+               'C27_attempt_fails_iff_fault. The real code is run against the model on enumerated and random fault histories, including '
+               'Database.execute_many with 1001 and 2500 rows struck at the first / middle / last row, rows 999-1001 and 1999-2001, and at '
+               'COMMIT.',
     level_note='InnoDB/aiomysql are MODELLED, not verified: atomic COMMIT/ROLLBACK, server-side rollback for deadlock victims and lost '
                'connections, "an error from COMMIT means nothing was committed", START TRANSACTION implicitly commits, aiomysql closes '
-               'in-transaction connections on release and raises InterfaceError on a lost connection. Cancellation and the un-retried '
-               'async generators execute_and_fetchall/select_and_fetchall are out of scope. The theorems target database.py WITH '
-               'fixes/C27.diff applied; on the unfixed file the check reports the lost-connection finding.',
+               'in-transaction connections on release and raises InterfaceError on a lost connection, Cursor.executemany sends one '
+               'statement per row (or multi-row statements on its bulk INSERT path). That each helper IS one transaction around one '
+               'Transaction method that sends its parameters unchanged is established by the (trusted) AST walker, which fails closed, '
+               'and by the correspondence run — the Coq model has no notion of a helper that opens several transactions. ONLY CHECKED BY '
+               'THE RUN (oracle on the real code over the recording fake, no theorem): argument arrays of 1000..3001 and 12000 rows '
+               '(thorough: 50001) with non-transient and transient faults at every row class (first, second, middle, the rows around '
+               'every multiple of 1000, last) and at COMMIT, alone and in sequences of up to 3 faulty attempts, judged by the committed '
+               'log of the fake database per attempt of the retry wrapper (nothing after a failed/retried attempt, every row exactly once '
+               'after success) independently of how the code scopes its transactions; single-statement helpers with 1001/2500-element '
+               'argument tuples; and the two async generators execute_and_fetchall / select_and_fetchall, which are NOT wrapped in the '
+               'retry decorator by design (rows may already have been yielded): for them only all-or-nothing and error propagation are '
+               'checked, not retry. Cancellation is out of scope. The theorems target database.py WITH fixes/C27.diff applied; on the '
+               'unfixed file the check reports the lost-connection finding.',
     partial=True,
 )
 TRUSTED = ['fake aiomysql pool/connection/cursor in harness/impl/c27_dbtx.py = stand-in for aiomysql 0.3 + MySQL/InnoDB transaction semantics',
            'pymysql.err shim (harness/loader/shims/pymysql/err.py): exception hierarchy as in PyMySQL 1.x (compared with DbTx.Model.is_instance on every run)',
-           'C27 AST walkers in harness/props/C27.py (classification function, _aexit_1 shape, retry wrapper shape)',
-           'CPython asyncio; gear.database.sleep_before_try replaced by a zero-delay yield']
+           'C27 AST walkers in harness/props/C27.py (classification function, _aexit_1 shape, retry wrapper shape, shape of the Database.* '
+           'helpers and of the Transaction methods they call)',
+           'CPython asyncio; gear.database.sleep_before_try replaced by a zero-delay hook that also marks the boundary between two '
+           'attempts of the retry wrapper for the fault injector']
 ASSUMPTIONS = ['an error reported by COMMIT means the transaction was not committed (a lost connection during COMMIT is in reality ambiguous)',
                'the body of the transactional function does not catch database errors itself: the first failing statement ends the attempt',
-               'one connection slot is enough to represent the pool (connections are independent)']
+               'one connection slot is enough to represent the pool (connections are independent)',
+               'Cursor.executemany(sql, rows) has the effect of executing the statement once per row, in order, inside the current '
+               'transaction; a fault strikes one wire statement (a row, or a multi-row chunk on the bulk path)']
 
 PY_CLASSES = ['MySQLError', 'Warning', 'Error', 'InterfaceError', 'DatabaseError', 'DataError', 'OperationalError', 'IntegrityError',
               'InternalError', 'ProgrammingError', 'NotSupportedError']
@@ -506,6 +533,7 @@ HELPERS = ['just_execute', 'execute_update', 'execute_insertone', 'execute_many'
 UNRETRIED = ['execute_and_fetchall', 'select_and_fetchall']
 # argument-array lengths for Database.execute_many (above 1000, above 2000, and the boundaries) and the row classes struck
 MANY_N = [1000, 1001, 1500, 2000, 2001, 2500, 3001]
+MANY_N_LONG = [12000]                    # oracle only, two error kinds
 MANY_N_X = [1001, 2500]                  # the Coq model appends to the pending list row by row (quadratic): fewer lengths there
 NONTRANSIENT_ROW = [(_e('IntegrityError', 1062), 'stmt'), (_e('OperationalError', 1205), 'stmt'), (_e('ProgrammingError', 1064), 'txn'),
                     (_e('InterfaceError', None), 'lost'), (_e('OperationalError', 2006), 'lost'), (_e('InternalError', 1213), 'txn')]
@@ -600,6 +628,12 @@ def _many_cases(ctx, budget, for_oracle):
                     out.append(_mk('execute_many', n, [{'commit': [e, lost], 'commit_after': after}], init=[-5]))
             out.append(_mk('execute_many', n, [], init=[-5]))
             out.append(_mk('execute_many', n, [{'acquire': tr[3][0]}, {'start': [tr[2][0], True]}], init=[-5]))
+        for n in MANY_N_LONG if ctx.tier == 'quick' else MANY_N_LONG + [50001]:
+            for i in _row_classes(n):
+                for e, eff in (nt[0], tr[1]):
+                    out.append(_mk('execute_many', n, [_row_fault(i, e, eff)], init=[-5]))
+            out.append(_mk('execute_many', n, [{'commit': [tr[0][0], False], 'commit_after': n}, {'commit': [nt[0][0], False], 'commit_after': n}],
+                           init=[-5]))
     else:
         for n in MANY_N_X:
             for i in _row_classes(n):
@@ -733,7 +767,9 @@ def _faults_lit(f):
     acq = f'(Some {_err_lit(f["acquire"])})' if 'acquire' in f else 'None'
     st = f'(Some ({_err_lit(f["start"][0])}, {_bool(f["start"][1])}))' if 'start' in f else 'None'
     eff = {'stmt': 'StmtOnly', 'txn': 'TxnRolledBack', 'lost': 'ConnLost'}
-    sm = f'(Some ({natlit(f["stmt"][0])}, {_err_lit(f["stmt"][1])}, {eff[f["stmt"][2]]}))' if 'stmt' in f else 'None'
+    i = f['stmt'][0] if 'stmt' in f else 0
+    idx = natlit(i) if i < 20 else f'(Z.to_nat {zlit(i)})'          # unary literals in the thousands take seconds to elaborate
+    sm = f'(Some ({idx}, {_err_lit(f["stmt"][1])}, {eff[f["stmt"][2]]}))' if 'stmt' in f else 'None'
     cm = f'(Some ({_err_lit(f["commit"][0])}, {_bool(f["commit"][1])}))' if 'commit' in f else 'None'
     rb = f'(Some {_err_lit(f["rollback"])})' if 'rollback' in f else 'None'
     return f'(mkFaults {acq} {st} {sm} {cm} {rb})'
@@ -790,9 +826,12 @@ def _model_runs(ctx, cases):
     bigset = set(big)
     small = [k for k in range(len(cases)) if k not in bigset]
     vals = {}
-    for idx, label, shard in ((small, 'tx', 400), (big, 'many', 6)):
-        res = coq_eval(ctx, HEADER, [_model_expr(cases[k]) for k in idx], label=label, shard=shard)
-        vals.update(zip(idx, res))
+    # a long-array case costs ~0.1-1 s of vm_compute, a short one ~1 ms; process start-up dominates small shards
+    with concurrent.futures.ThreadPoolExecutor(max_workers=2) as ex:
+        futs = [(idx, ex.submit(coq_eval, ctx, HEADER, [_model_expr(cases[k]) for k in idx], label=label, shard=shard))
+                for idx, label, shard in ((small, 'tx', 400), (big, 'many', 20))]
+        for idx, fut in futs:
+            vals.update(zip(idx, fut.result()))
     out = []
     for k in range(len(cases)):
         r, final, tr = vals[k]
@@ -907,6 +946,11 @@ def _judge(c, r):
         got = _runs(r['final'])
         if got != want:
             bad.append(('partial-writes', f'final committed log [{_show(got)}], expected [{_show(want)}]', 'end', None))
+    else:
+        got = _runs(r['final'])
+        if sum(x[1] for x in got) > sum(x[1] for x in r_full) and not any(b[0] == 'duplicated-writes' for b in bad):
+            bad.append(('duplicated-writes', f'after the retries the final committed log is [{_show(got)}]: more writes than one successful '
+                                             f'run of the operation makes ([{_show(r_full)}])', bad[0][2], bad[0][3]))
     return bad
 
 
